@@ -18,6 +18,15 @@ import (
 var c20Log []string
 var c20Err = errors.New("recording sink: statement not executed")
 
+// fault schedule of the prepared statements: the c20ExecFailAt-th Exec of a call
+// is refused by the database (0 = none is)
+var c20ExecFailAt, c20ExecCount int
+
+func c20ExecFails() bool {
+	c20ExecCount++
+	return c20ExecCount == c20ExecFailAt
+}
+
 func c20Exec(db *sql.DB, query string, args ...interface{}) (sql.Result, error) {
 	c20Log = append(c20Log, query)
 	return nil, c20Err
@@ -46,6 +55,9 @@ func c20TxPrepare(tx *sql.Tx, query string) (*sql.Stmt, error) {
 	return &sql.Stmt{}, nil
 }
 func c20StmtExec(st *sql.Stmt, args ...interface{}) (sql.Result, error) {
+	if c20ExecFails() {
+		return nil, c20Err
+	}
 	return driver.RowsAffected(1), nil
 }
 func c20StmtClose(st *sql.Stmt) error { return nil }
@@ -75,6 +87,9 @@ type c20Stmt struct{}
 func (c20Stmt) Close() error  { return nil }
 func (c20Stmt) NumInput() int { return -1 }
 func (c20Stmt) Exec(args []driver.Value) (driver.Result, error) {
+	if c20ExecFails() {
+		return nil, c20Err
+	}
 	return driver.RowsAffected(1), nil
 }
 func (c20Stmt) Query(args []driver.Value) (driver.Rows, error) { return nil, c20Err }
